@@ -955,64 +955,64 @@ func c15R4(c *Ctx) {
 
 var c15Mutants = []Mutant{
 	{Name: "tags-unbounded-decode", File: "registry/remote/repository.go",
-		Old: "\tlr := limitReader(resp.Body, r.MaxMetadataBytes)\n\tif err := json.NewDecoder(lr).Decode(&page); err != nil {",
-		New: "\tif err := json.NewDecoder(resp.Body).Decode(&page); err != nil {",
+		Old:    "\tlr := limitReader(resp.Body, r.MaxMetadataBytes)\n\tif err := json.NewDecoder(lr).Decode(&page); err != nil {",
+		New:    "\tif err := json.NewDecoder(resp.Body).Decode(&page); err != nil {",
 		Expect: "C15.R1.bounded-body-read"},
 	{Name: "token-unbounded-decode", File: "registry/remote/auth/client.go",
-		Old: "\tlr := io.LimitReader(resp.Body, maxResponseBytes)\n\tif err := json.NewDecoder(lr).Decode(&result); err != nil {\n\t\treturn \"\", fmt.Errorf(\"%s %q: failed to decode response: %w\", resp.Request.Method, resp.Request.URL, err)\n\t}\n\tif result.AccessToken != \"\" {\n\t\treturn result.AccessToken, nil\n\t}\n\tif result.Token != \"\" {",
-		New: "\tif err := json.NewDecoder(resp.Body).Decode(&result); err != nil {\n\t\treturn \"\", fmt.Errorf(\"%s %q: failed to decode response: %w\", resp.Request.Method, resp.Request.URL, err)\n\t}\n\tif result.AccessToken != \"\" {\n\t\treturn result.AccessToken, nil\n\t}\n\tif result.Token != \"\" {",
+		Old:    "\tlr := io.LimitReader(resp.Body, maxResponseBytes)\n\tif err := json.NewDecoder(lr).Decode(&result); err != nil {\n\t\treturn \"\", fmt.Errorf(\"%s %q: failed to decode response: %w\", resp.Request.Method, resp.Request.URL, err)\n\t}\n\tif result.AccessToken != \"\" {\n\t\treturn result.AccessToken, nil\n\t}\n\tif result.Token != \"\" {",
+		New:    "\tif err := json.NewDecoder(resp.Body).Decode(&result); err != nil {\n\t\treturn \"\", fmt.Errorf(\"%s %q: failed to decode response: %w\", resp.Request.Method, resp.Request.URL, err)\n\t}\n\tif result.AccessToken != \"\" {\n\t\treturn result.AccessToken, nil\n\t}\n\tif result.Token != \"\" {",
 		Expect: "C15.R1.bounded-body-read"},
 	{Name: "digest-calc-unbounded", File: "registry/remote/repository.go",
-		Old: "\tbody := limitReader(resp.Body, maxMetadataBytes)\n\tcontent, err := io.ReadAll(body)",
-		New: "\t_ = maxMetadataBytes\n\tcontent, err := io.ReadAll(resp.Body)",
+		Old:    "\tbody := limitReader(resp.Body, maxMetadataBytes)\n\tcontent, err := io.ReadAll(body)",
+		New:    "\t_ = maxMetadataBytes\n\tcontent, err := io.ReadAll(resp.Body)",
 		Expect: "C15.R1.bounded-body-read"},
 	{Name: "referrers-index-size-unchecked", File: "registry/remote/repository.go",
-		Old: "\tif err := limitSize(desc, r.MaxMetadataBytes); err != nil {\n\t\treturn ocispec.Descriptor{}, nil, fmt.Errorf(\"failed to read referrers index from referrers tag %s: %w\", referrersTag, err)\n\t}\n",
-		New: "",
+		Old:    "\tif err := limitSize(desc, r.MaxMetadataBytes); err != nil {\n\t\treturn ocispec.Descriptor{}, nil, fmt.Errorf(\"failed to read referrers index from referrers tag %s: %w\", referrersTag, err)\n\t}\n",
+		New:    "",
 		Expect: "C15.R1.sized-read-behind-limit"},
 	{Name: "limit-size-wrong-descriptor", File: "registry/remote/repository.go",
-		Old: "\t\tif err := limitSize(target, s.repo.MaxMetadataBytes); err != nil {\n\t\t\treturn err\n\t\t}\n\t\tctx = auth.AppendRepositoryScope(ctx, s.repo.Reference, auth.ActionPull, auth.ActionDelete)",
-		New: "\t\tif err := limitSize(target, s.repo.MaxMetadataBytes); err != nil && target.MediaType != ocispec.MediaTypeImageIndex {\n\t\t\treturn err\n\t\t}\n\t\tctx = auth.AppendRepositoryScope(ctx, s.repo.Reference, auth.ActionPull, auth.ActionDelete)",
+		Old:    "\t\tif err := limitSize(target, s.repo.MaxMetadataBytes); err != nil {\n\t\t\treturn err\n\t\t}\n\t\tctx = auth.AppendRepositoryScope(ctx, s.repo.Reference, auth.ActionPull, auth.ActionDelete)",
+		New:    "\t\tif err := limitSize(target, s.repo.MaxMetadataBytes); err != nil && target.MediaType != ocispec.MediaTypeImageIndex {\n\t\t\treturn err\n\t\t}\n\t\tctx = auth.AppendRepositoryScope(ctx, s.repo.Reference, auth.ActionPull, auth.ActionDelete)",
 		Expect: "C15.R1.sized-read-behind-limit"},
 	{Name: "limit-reader-doubles", File: "registry/remote/utils.go",
 		Old: "\treturn io.LimitReader(r, n)", New: "\treturn io.LimitReader(r, 2*n)", Expect: "C15.R1.limit-helpers"},
 	{Name: "limit-size-off", File: "registry/remote/utils.go",
 		Old: "\tif desc.Size > n {", New: "\tif desc.Size > n && desc.MediaType == \"\" {", Expect: "C15.R1.limit-helpers"},
 	{Name: "decode-error-swallowed", File: "registry/remote/registry.go",
-		Old: "\tif err := json.NewDecoder(lr).Decode(&page); err != nil {\n\t\treturn \"\", fmt.Errorf(\"%s %q: failed to decode response: %w\", resp.Request.Method, resp.Request.URL, err)\n\t}",
-		New: "\tif err := json.NewDecoder(lr).Decode(&page); err != nil && len(page.Repositories) == 0 {\n\t\treturn \"\", fmt.Errorf(\"%s %q: failed to decode response: %w\", resp.Request.Method, resp.Request.URL, err)\n\t}",
+		Old:    "\tif err := json.NewDecoder(lr).Decode(&page); err != nil {\n\t\treturn \"\", fmt.Errorf(\"%s %q: failed to decode response: %w\", resp.Request.Method, resp.Request.URL, err)\n\t}",
+		New:    "\tif err := json.NewDecoder(lr).Decode(&page); err != nil && len(page.Repositories) == 0 {\n\t\treturn \"\", fmt.Errorf(\"%s %q: failed to decode response: %w\", resp.Request.Method, resp.Request.URL, err)\n\t}",
 		Expect: "C15.R1.read-error-propagates"},
 	{Name: "tags-last-resent", File: "registry/remote/repository.go",
-		Old: "\t\turl, err = r.tags(ctx, last, fn, url)\n\t\t// clear `last` for subsequent pages\n\t\tlast = \"\"\n",
-		New: "\t\turl, err = r.tags(ctx, last, fn, url)\n",
+		Old:    "\t\turl, err = r.tags(ctx, last, fn, url)\n\t\t// clear `last` for subsequent pages\n\t\tlast = \"\"\n",
+		New:    "\t\turl, err = r.tags(ctx, last, fn, url)\n",
 		Expect: "C15.R2.page-loop"},
 	{Name: "referrers-url-not-advanced", File: "registry/remote/repository.go",
-		Old: "\t\turl, err = r.referrersPageByAPI(ctx, artifactType, fn, url)",
-		New: "\t\t_, err = r.referrersPageByAPI(ctx, artifactType, fn, url)",
+		Old:    "\t\turl, err = r.referrersPageByAPI(ctx, artifactType, fn, url)",
+		New:    "\t\t_, err = r.referrersPageByAPI(ctx, artifactType, fn, url)",
 		Expect: "C15.R2.page-loop"},
 	{Name: "repositories-any-error-ends", File: "registry/remote/registry.go",
-		Old: "\tif err != errNoLink {\n\t\treturn err\n\t}\n\treturn nil\n}",
-		New: "\tif err != errNoLink && err != errdef.ErrNotFound {\n\t\treturn err\n\t}\n\treturn nil\n}",
+		Old:    "\tif err != errNoLink {\n\t\treturn err\n\t}\n\treturn nil\n}",
+		New:    "\tif err != errNoLink && err != errdef.ErrNotFound {\n\t\treturn err\n\t}\n\treturn nil\n}",
 		Expect: "C15.R2.page-loop"},
 	{Name: "tags-query-replaced", File: "registry/remote/repository.go",
-		Old: "\t\treq.URL.RawQuery = q.Encode()\n\t}\n\tresp, err := r.do(req)",
-		New: "\t\treq.URL.RawQuery = \"n=\" + q.Get(\"n\") + \"&last=\" + q.Get(\"last\")\n\t}\n\tresp, err := r.do(req)",
+		Old:    "\t\treq.URL.RawQuery = q.Encode()\n\t}\n\tresp, err := r.do(req)",
+		New:    "\t\treq.URL.RawQuery = \"n=\" + q.Get(\"n\") + \"&last=\" + q.Get(\"last\")\n\t}\n\tresp, err := r.do(req)",
 		Expect: "C15.R2.page-function"},
 	{Name: "callback-error-dropped", File: "registry/remote/repository.go",
-		Old: "\tif err := fn(page.Tags); err != nil {\n\t\treturn \"\", err\n\t}\n\n\treturn parseLink(resp)",
-		New: "\tfn(page.Tags)\n\n\treturn parseLink(resp)",
+		Old:    "\tif err := fn(page.Tags); err != nil {\n\t\treturn \"\", err\n\t}\n\n\treturn parseLink(resp)",
+		New:    "\tfn(page.Tags)\n\n\treturn parseLink(resp)",
 		Expect: "C15.R2.page-function"},
 	{Name: "link-malformed-ends-listing", File: "registry/remote/utils.go",
-		Old: "\tif link[0] != '<' {\n\t\treturn \"\", fmt.Errorf(\"invalid next link %q: missing '<'\", link)\n\t}",
-		New: "\tif link[0] != '<' {\n\t\treturn \"\", errNoLink\n\t}",
+		Old:    "\tif link[0] != '<' {\n\t\treturn \"\", fmt.Errorf(\"invalid next link %q: missing '<'\", link)\n\t}",
+		New:    "\tif link[0] != '<' {\n\t\treturn \"\", errNoLink\n\t}",
 		Expect: "C15.R2.link-parser"},
 	{Name: "link-not-resolved", File: "registry/remote/utils.go",
-		Old: "\tlinkURL, err := resp.Request.URL.Parse(link)\n\tif err != nil {\n\t\treturn \"\", err\n\t}\n\treturn linkURL.String(), nil",
-		New: "\treturn link, nil",
+		Old:    "\tlinkURL, err := resp.Request.URL.Parse(link)\n\tif err != nil {\n\t\treturn \"\", err\n\t}\n\treturn linkURL.String(), nil",
+		New:    "\treturn link, nil",
 		Expect: "C15.R2.link-parser"},
 	{Name: "filter-skipped-when-header-empty", File: "registry/remote/repository.go",
-		Old: "\t\tif !isReferrersFilterApplied(filtersHeader, filterTypeArtifactType) &&\n\t\t\t!isReferrersFilterApplied(filtersAnnotation, filterTypeArtifactType) {",
-		New: "\t\tif filtersHeader != \"\" && !isReferrersFilterApplied(filtersHeader, filterTypeArtifactType) &&\n\t\t\t!isReferrersFilterApplied(filtersAnnotation, filterTypeArtifactType) {",
+		Old:    "\t\tif !isReferrersFilterApplied(filtersHeader, filterTypeArtifactType) &&\n\t\t\t!isReferrersFilterApplied(filtersAnnotation, filterTypeArtifactType) {",
+		New:    "\t\tif filtersHeader != \"\" && !isReferrersFilterApplied(filtersHeader, filterTypeArtifactType) &&\n\t\t\t!isReferrersFilterApplied(filtersAnnotation, filterTypeArtifactType) {",
 		Expect: "C15.R3"},
 	{Name: "listtags-unsorted", File: "content/oci/readonlyoci.go",
 		Old: "\tslices.Sort(tags)\n\n\treturn fn(tags)", New: "\tif last != \"\" {\n\t\tslices.Sort(tags)\n\t}\n\n\treturn fn(tags)", Expect: "C15.R4"},
